@@ -352,6 +352,8 @@ fn append_pattern_styles(tb: &mut ThemeBuilder, t_stroke: &str) {
             .filter(|c| c.starts_with(&spec_class))
             .cloned()
             .collect();
+        #[cfg(feature = "verif-hooks")]
+        let classes = crate::verif::iteration_order("append_pattern_styles", classes);
         for class in classes {
             if let Some(grid_size) = get_spacing(&spec_class, &class) {
                 pattern_defs(tb, t_stroke, &class, grid_size, ptn_type, ptn_rotate);
